@@ -38,9 +38,9 @@ func init() {
 			{ID: "C03.g", Title: "ERROR-DISCIPLINE", Template: "T12", MinInst: 15,
 				Rule: "every Backend/LockBackend/applyStagedUploads/errgroup.Wait/cachePut call in ctlog has its error bound and tested, or returned directly; documented exceptions listed",
 				Run:  c03g},
-			{ID: "C03.i", Title: "IDEMPOTENT-REUPLOAD", Template: "T2+T10", MinInst: 5,
-				Rule: "re-applying a staged bundle over tiles that already exist succeeds on the local backend: an existing immutable object is compared, never rewritten, equal bytes give success, and the comparison reads the whole file, terminates for every length and handles the final short chunk (as C13.h, C13.i, C13.k)",
-				Run:  func(c *Ctx) { c13h(c); c13i(c); c13k(c) }},
+			{ID: "C03.i", Title: "IDEMPOTENT-REUPLOAD", Template: "T10", MinInst: 1,
+				Rule: "re-applying a staged bundle over tiles that already exist must succeed on the local backend: the comparison of an existing immutable object with equal bytes terminates for every length and does not treat the final short chunk as a difference (as C13.i)",
+				Run:  c13i},
 			{ID: "C03.h", Title: "BUNDLE-SCHEMA", Template: "T5", MinInst: 1,
 				Rule: "tar header fields written by marshalStagedUploads (Name, Size, PAX record key, options type) are the ones read by applyStagedUploads",
 				Run:  c03h},
